@@ -29,7 +29,7 @@ MECH = ["nutree.node:Node.add_child", "nutree.node:Node._calc_insert_pos", "nutr
         "nutree.node:Node.remove_children", "nutree.tree:Tree.clear", "nutree.tree:Tree.__delitem__",
         "nutree.node:Node.sort_children", "nutree.tree:Tree.sort", "nutree.node:Node.set_data", "nutree.node:Node.rename",
         "nutree.node:Node.set_meta", "nutree.node:Node.clear_meta", "nutree.node:Node.update_meta"]
-MIN_NONTRIVIAL = {"quick": 20000, "thorough": 400000}
+MIN_NONTRIVIAL = {"quick": 20000, "thorough": 150000}
 EXHAUSTIVE = {"quick": True, "thorough": True}
 OWN = "C04"
 ROOT = hist.ROOT
@@ -111,6 +111,11 @@ def enum_ops(s, *, invalid=True):
         for via in ("add_child",) + (("append_child", "prepend_child") if p != ROOT else ()):
             yield {"op": "add", "parent": p, "data": "NEW", "via": via,
                    "before": True if via == "prepend_child" else None}
+    if typed and invalid:
+        yield {"op": "add", "parent": holders[-1], "data": "NEW", "kind": 123}
+    if not typed and nodes and invalid:
+        yield {"op": "move_foreign", "node": nodes[0].uid, "to_tree": False, "idx": 0}
+        yield {"op": "move_foreign", "node": nodes[-1].uid, "to_tree": True, "idx": 1}
     for x in nodes:
         for which in ("prepend_sibling", "append_sibling"):
             yield {"op": "sibling", "node": x.uid, "data": "NEW", "which": which}
@@ -162,7 +167,8 @@ def enum_ops(s, *, invalid=True):
     for x in nodes:
         sibs = [c for c in m.kids(m.parent_of(x)) if c is not x]
         others = [y for y in nodes if y is not x and y.data_id != x.data_id]
-        variants = [{"data": "NEW"}, {"data": "NEW", "data_id": "EXPL"}, {"data": None, "data_id": "EXPL"}, {"data": x.data}, {"data": None}]
+        variants = [{"data": "NEW"}, {"data": "NEW", "data_id": "EXPL"}, {"data": None, "data_id": "EXPL"}, {"data": x.data}, {"data": None},
+                    {"data": "NEWOBJ-SAME-ID", "data_id": x.data_id}]
         if sibs:
             v = {"data": sibs[0].data}
             if sibs[0].data_id != m.rule(sibs[0].data):
